@@ -13,7 +13,7 @@ use crate::engine::{write_replay, Opts, Report, Violation};
 use crate::gen::dict::{render_lex_rows, ConnFiles, DictParams, TokOpts};
 use crate::props::c19::is_break;
 use crate::props::common::{build_case_dict, tok_case, TokCase, TokCaseParams};
-use crate::refmodel::{make_tokenizer, tokenize_fresh, RefDict};
+use crate::refmodel::{tokenize_fresh, RefDict};
 
 pub fn bin_dir() -> Option<PathBuf> {
     let d = PathBuf::from(std::env::var("VERIF_CLI_BIN").ok()?);
@@ -237,7 +237,7 @@ pub fn c19(opts: &Opts, rep: &mut Report, n: u32) {
             let out = run(&bins.join("tokenize"), &args, Some(text.as_bytes()))?;
             let parsed = parse(&out).map_err(|e| format!("tokenize output rejected as a corpus: {e}; output {:?}", String::from_utf8_lossy(&out)))?;
             let d = build_case_dict(&case.spec.render(), case.user.as_deref(), None, false)?;
-            let tokenizer = make_tokenizer(d, o.ignore_space, o.max_grouping_len)?;
+            let tokenizer = crate::refmodel::make_tokenizer_h(d, o.ignore_space, o.max_grouping_len, o.history)?;
             let expect: Vec<Sent> = text
                 .lines()
                 .map(|l| tokenize_fresh(&tokenizer, l).into_iter().map(|t| (t.surface, t.feature)).collect::<Sent>())
